@@ -13,12 +13,9 @@ git apply $W/.seed_patch.diff
 cd $T
 for P in "$@"; do
   echo "--- check $P against the change"
-  REPLICAT_REPO=$W timeout 1500 /venv/bin/python -m harness.check $P --tier quick 2>&1 | grep -E "VIOLATION|INFRA" | cut -c1-400 | head -4; echo "exit=${PIPESTATUS[0]}"
-  python3 - $P <<'PY'
-import json,sys
-try:
-    e=json.load(open('evidence/%s.json'%sys.argv[1]))
-    for v in e.get('violations',[])[:6]: print('   ', str(v.get('signature') or v.get('sig') or v)[:300])
-except Exception as ex: print('   (no evidence)', ex)
-PY
+  mkdir -p .work; REPLICAT_REPO=$W timeout 1500 /venv/bin/python -m harness.check $P --tier quick > .work/tseed_$P.log 2>&1; RC=$?; grep -E "VIOLATION|INFRA" .work/tseed_$P.log | cut -c1-400 | head -4; echo "exit=$RC"
+  grep -E "^VIOLATION" .work/tseed_$P.log 2>/dev/null | head -4 | while read -r l; do
+    f=$(echo "$l" | sed -n 's/.*replay=\([^ ]*\).*/\1/p')
+    python3 -c "import json,sys; d=json.load(open(sys.argv[1])); print('   ', d.get('sig') or ('broken: '+', '.join((d.get('broken_proof_obligations') or [])[:3]+[str(x.get('what'))[:90] for x in (d.get('correspondence_disagreements') or [])[:2]])))" "$f" 2>/dev/null
+  done
 done
